@@ -960,7 +960,7 @@ class BatchMessage(_MessageType):
                 flags |= _WITH_SERIAL_CONSISTENCY_FLAG
             if self.timestamp is not None:
                 flags |= _PROTOCOL_TIMESTAMP_FLAG
-            if self.keyspace:
+            if self.keyspace is not None:
                 if ProtocolVersion.uses_keyspace_flag(protocol_version):
                     flags |= _WITH_KEYSPACE_FLAG
                 else:
@@ -981,6 +981,11 @@ class BatchMessage(_MessageType):
             if ProtocolVersion.uses_keyspace_flag(protocol_version):
                 if self.keyspace is not None:
                     write_string(f, self.keyspace)
+        elif self.serial_consistency_level or self.timestamp is not None or self.keyspace is not None:
+            # a v2 BATCH ends with the consistency level: there is no flags byte to announce these
+            raise UnsupportedOperation(
+                "Serial consistency levels, client timestamps and keyspaces on a batch require "
+                "protocol version 3 or higher. Consider setting Cluster.protocol_version to 3.")
 
 
 known_event_types = frozenset((
